@@ -45,9 +45,10 @@ func c16bBody(c *run.Ctx) {
 	// draw the burst
 	g := c.Ch.Int("goroutines", 2, run.Scale(16, 48))
 	type job struct {
-		in    linmodel.Op
-		chips int64
-		spin  int
+		in        linmodel.Op
+		chips     int64
+		spin      int
+		viaUpdate bool // a departure issued as the leave half of UpdateTablePlayers
 	}
 	jobs := make([]job, g)
 	labels := map[string]bool{fmt.Sprintf("N%d", n): true}
@@ -102,6 +103,12 @@ func c16bBody(c *run.Ctx) {
 			}
 		}
 	}
+	for i := range jobs {
+		if jobs[i].in.Kind == "leave" && choose.Chance(c.Ch, "viaupdate", 50) {
+			jobs[i].viaUpdate = true
+			labels["leave_via_batch_update"] = true
+		}
+	}
 	for _, h := range seatHits {
 		if h >= 2 {
 			labels["conflict_same_seat"] = true
@@ -138,7 +145,11 @@ func c16bBody(c *run.Ctx) {
 				case "reserve":
 					err = te.PlayerReserve(pokertable.JoinPlayer{PlayerID: j.in.ID, RedeemChips: j.chips, Seat: j.in.Seat})
 				case "leave":
-					err = te.PlayersLeave(j.in.IDs)
+					if j.viaUpdate {
+						_, err = te.UpdateTablePlayers(nil, j.in.IDs)
+					} else {
+						err = te.PlayersLeave(j.in.IDs)
+					}
 				case "update-join":
 					var m map[string]int
 					m, err = te.UpdateTablePlayers(j.in.Joins, nil)
